@@ -127,7 +127,7 @@ PROPS = {
                      "Sqlize.C02.columns_on_reference_engine", "Sqlize.columns_spec_down", "Sqlize.removed_column_def", "Sqlize.Table.diffCols2_mem_full",
                      "Sqlize.C02.indexes_with_dropped_columns", "Sqlize.Abs.Idx.emitDownSup_correct", "Sqlize.Table.walkIdx_refines_down_sup",
                      "Sqlize.equal_pk_untouched_down", "Sqlize.table_spec_down_any", "Sqlize.table_spec_down_fk_any", "Sqlize.fk_stmts_justified_down", "Sqlize.Abs.Idx.emitDownKeepSup_correct", "Sqlize.Table.walkFk_refines_down_sup", "Sqlize.fks_with_drops_end_to_end_down", "Sqlize.execAll_fkwf", "Sqlize.table_stmts_justified_down", "Sqlize.loaded_table_spec",
-                     "Sqlize.schema_spec_down", "Sqlize.C02.schema_on_reference_engine", "Sqlize.C02.up_then_down_on_reference_engine", "Sqlize.proved_down", "Sqlize.Tie.element_skeleton_as_modelled", "Sqlize.Tie.api_load_skeleton_as_modelled", "Sqlize.C02.schema_on_reference_engine_either_setting", "Sqlize.schema_down_any"],
+                     "Sqlize.schema_spec_down", "Sqlize.C02.schema_on_reference_engine", "Sqlize.C02.down_of_a_whole_schema", "Sqlize.C02.up_then_down_on_reference_engine", "Sqlize.proved_down", "Sqlize.Tie.element_skeleton_as_modelled", "Sqlize.Tie.api_load_skeleton_as_modelled", "Sqlize.C02.schema_on_reference_engine_either_setting", "Sqlize.schema_down_any"],
         "suites": [{"name": "pair"}],
         "corr_points": ["load-old", "load-new", "state-old", "state-new", "Diff", "state-diff", "StringUp", "StringDown"],
         "rule": PAIR_RULE,
